@@ -123,6 +123,21 @@ def install_monitors(node: Any) -> None:
 
     LintedFile.persist_tree = persist_tree  # type: ignore
 
+    from sqlfluff.core.linter.linter import Linter
+
+    orig_lfp = Linter.lint_fix_parsed.__func__
+
+    def lint_fix_parsed(cls: Any, tree: Any, config: Any, rule_pack: Any, fix: bool = False, fname: Any = None,
+                        templated_file: Any = None, formatter: Any = None):
+        n = _MON["node"]
+        n0 = len(n.logcap.records)
+        r = orig_lfp(cls, tree, config, rule_pack, fix, fname, templated_file, formatter)
+        if any(rec[2].startswith("Loop limit on fixes reached") for rec in n.logcap.records[n0:]):
+            n.events.append(["looplimit", n.name, fname])
+        return r
+
+    Linter.lint_fix_parsed = classmethod(lint_fix_parsed)  # type: ignore
+
     orig_lex = Lexer.lex
 
     def lex(self: Any, raw: Any):
@@ -264,6 +279,7 @@ def op_lint_paths(
     restore = None
     if task_exc:
         restore = _install_task_exc(set(task_exc))
+        node.knobs["worker_task_exc"] = list(task_exc)
     try:
         try:
             if linter_handle and linter_handle in node.handles:
@@ -350,6 +366,8 @@ def op_cli(
     _plan_apply(node, plan)
     cmd = getattr(commands, {"format": "cli_format"}.get(argv[0], argv[0]))
     restore = _install_task_exc(set(task_exc)) if task_exc else None
+    if task_exc:
+        node.knobs["worker_task_exc"] = list(task_exc)
     out: dict[str, Any] = {}
     try:
         runner = CliRunner()
@@ -477,6 +495,44 @@ def op_pool_init(node: Any, init: bytes) -> dict:
 
 
 def op_pool_task(node: Any, blob: bytes) -> dict:
+    install_monitors(node)
+    if node.knobs.get("worker_task_exc") and not node.handles.get("_task_exc"):
+        node.handles["_task_exc"] = _install_task_exc(set(node.knobs["worker_task_exc"]))
     func, task = pickle.loads(blob)
     res = func(task)
     return {"blob": bytes(ForkingPickler.dumps(res))}
+
+
+# ---- simple API / stdin -----------------------------------------------------------
+
+
+def op_api_fix(node: Any, sql: str, kwargs: Optional[dict] = None) -> dict:
+    import sqlfluff
+
+    install_monitors(node)
+    _mon_reset()
+    out: dict[str, Any] = {}
+    try:
+        out["fixed"] = sqlfluff.fix(sql, **(kwargs or {}))
+    except SimCrash:
+        raise
+    except Exception as e:
+        out["exception"] = _exc_row(e)
+    out["mon"] = _mon_take()
+    return out
+
+
+def op_api_lint(node: Any, sql: str, kwargs: Optional[dict] = None) -> dict:
+    import sqlfluff
+
+    install_monitors(node)
+    _mon_reset()
+    out: dict[str, Any] = {}
+    try:
+        out["violations"] = sqlfluff.lint(sql, **(kwargs or {}))
+    except SimCrash:
+        raise
+    except Exception as e:
+        out["exception"] = _exc_row(e)
+    out["mon"] = _mon_take()
+    return out
